@@ -743,7 +743,16 @@ func (e *env) runWhip(j job) {
 	}
 	s := strangers()
 	if len(s) != 1 {
-		run.Violation("refused-despite-permission:whip", fmt.Sprintf("WHIP POST was answered 201 but the observer sees new members %v", s), w.replay(j))
+		var hist []string
+		for _, ev := range w.obs.Events() {
+			if m := ev.M; m.Str("type") == "user" {
+				if _, ok := known[m.Str("id")]; !ok {
+					hist = append(hist, m.Str("kind")+" "+m.Str("id")+"("+m.Str("username")+")")
+				}
+			}
+		}
+		w.logf("observer's history of unknown members: %v", hist)
+		run.Violation("refused-despite-permission:whip", fmt.Sprintf("WHIP POST was answered 201 but the observer sees new members %v (history of unknown members: %v)", s, hist), w.replay(j))
 		return
 	}
 	run.Count("whip_accepted", 1)
